@@ -25,6 +25,7 @@ type cnode struct {
 	key    *cnode
 	fields []cfield
 	perm   []int // target field order: target field j is source field perm[j]
+	q      []int // alternative schemas only (see alt)
 }
 
 type cfield struct {
@@ -129,6 +130,61 @@ func (n *cnode) types() (s, t reflect.Type) {
 			tf[j] = reflect.StructField{Name: n.fields[i].tname, Type: b}
 		}
 		return reflect.StructOf(sf), reflect.StructOf(tf)
+	}
+}
+
+// alt returns a schema with the same target type whose source structs list their fields in another
+// order (q[a] = index, in n's source struct, of the field at position a of the alternative source).
+func (n *cnode) alt(rng *rand.Rand) *cnode {
+	m := *n
+	if n.elem != nil {
+		m.elem = n.elem.alt(rng)
+	}
+	if n.kind == "struct" {
+		q := rng.Perm(len(n.fields))
+		qinv := make([]int, len(q))
+		m.fields = make([]cfield, len(q))
+		for a, i := range q {
+			qinv[i] = a
+			m.fields[a] = cfield{n.fields[i].sname, n.fields[i].tname, n.fields[i].n.alt(rng)}
+		}
+		m.perm = make([]int, len(q))
+		for j, i := range n.perm {
+			m.perm[j] = qinv[i]
+		}
+		m.q = q
+	}
+	return &m
+}
+
+// altCopy copies a value of n's source type into a value of the alternative source type.
+func (m *cnode) altCopy(src, dst reflect.Value) {
+	switch m.kind {
+	case "slice":
+		if src.IsNil() {
+			return
+		}
+		dst.Set(reflect.MakeSlice(dst.Type(), src.Len(), src.Len()))
+		for i := 0; i < src.Len(); i++ {
+			m.elem.altCopy(src.Index(i), dst.Index(i))
+		}
+	case "map":
+		if src.IsNil() {
+			return
+		}
+		dst.Set(reflect.MakeMapWithSize(dst.Type(), src.Len()))
+		it := src.MapRange()
+		for it.Next() {
+			e := reflect.New(dst.Type().Elem()).Elem()
+			m.elem.altCopy(it.Value(), e)
+			dst.SetMapIndex(it.Key(), e)
+		}
+	case "struct":
+		for a := range m.fields {
+			m.fields[a].n.altCopy(src.Field(m.q[a]), dst.Field(a))
+		}
+	default:
+		dst.Set(src)
 	}
 }
 
@@ -352,7 +408,7 @@ func genIncompatible(rng *rand.Rand) (target reflect.Type, source reflect.Value,
 }
 
 func c20(c *wk.Ctx) {
-	c.Note("rule", "streams: compat = a random pair (S,T) of structurally compatible Go types generated together (same-signedness integer widening incl. int/uint, float32->float64, string, bool, slices, maps with scalar keys, structs with permuted field order and varied letter case, depth <= 4/6) and a random edge-biased value s of S: ConvertFrom(&t, s) must succeed and equal the reference conversion, ConvertFrom(&s2, t) must recover s, and DecodeFrom (the Proxy.Call2 path) must give the same t from the encoding of s; incompat = pairs that must be refused (bool/int, string/number, float/int, slice/map, container/scalar, struct/container), bare and nested in a slice, map value or struct field. Distinct non-trivial = distinct pair shapes containing a composite or a width change.")
+	c.Note("rule", "streams: compat = a random pair (S,T) of structurally compatible Go types generated together (same-signedness integer widening incl. int/uint, float32->float64, string, bool, slices, maps with scalar keys, structs with permuted field order and varied letter case, depth <= 4/6) and a random edge-biased value s of S: ConvertFrom(&t, s) must succeed and equal the reference conversion, ConvertFrom(&s2, t) must recover s, a second source type with the same fields in another order must convert into the same target type with the same result, and DecodeFrom (the Proxy.Call2 path) must give the same t from the encoding of s; incompat = pairs that must be refused (bool/int, string/number, float/int, slice/map, container/scalar, struct/container), bare and nested in a slice, map value or struct field. Distinct non-trivial = distinct pair shapes containing a composite or a width change.")
 	depth := c.Pick(4, 6)
 	c.Cases("compat", c.Pick(100000, 500000), func(i int, rng *rand.Rand) {
 		n := genNode(rng, 1+rng.Intn(depth))
@@ -390,6 +446,33 @@ func c20(c *wk.Ctx) {
 			detail["back"] = fmt.Sprintf("%+v err=%v", s2.Elem().Interface(), err)
 			c.Viol("compat", i, "back=differs/"+cl, "converting back does not recover the source", detail)
 			return
+		}
+		// a second, differently laid out source type converted into the SAME target type
+		if n.has("struct") {
+			m := n.alt(rng)
+			s2T, t2T := m.types()
+			if t2T == tT && s2T != sT {
+				sAlt := reflect.New(s2T).Elem()
+				m.altCopy(s, sAlt)
+				tAlt := reflect.New(tT)
+				pv, stack = wk.Try(func() { err = conversion.ConvertFrom(tAlt.Interface(), sAlt.Interface()) })
+				detail["second_source"] = fmt.Sprintf("%v = %+v", s2T, sAlt.Interface())
+				if pv != nil {
+					c.Viol("compat", i, "second-source=panic/"+wk.PanicSite(stack), fmt.Sprintf("ConvertFrom panicked: %v", pv), detail)
+					return
+				}
+				if err != nil {
+					c.Viol("compat", i, "second-source=refused/"+cl, "a second compatible source type for the same target type is refused: "+err.Error(), detail)
+					return
+				}
+				if !same(tAlt.Elem(), want) {
+					detail["got"] = fmt.Sprintf("%+v", tAlt.Elem().Interface())
+					c.Viol("compat", i, "second-source=differs/"+cl, "the value converted from a second source type (same fields, other order) differs", detail)
+					return
+				}
+				delete(detail, "second_source")
+				c.Count("second_source_type_for_the_same_target_checked", 1)
+			}
 		}
 		// DecodeFrom path (Proxy.Call2 with a differing return signature)
 		var buf bytes.Buffer
